@@ -6,14 +6,16 @@
 #include <tins/ip_reassembler.h>
 #include "replay_util.h"
 using namespace Tins;
+static int g_proto = 17;    // protocol number of the datagram (witness W_proto): also numbers libtins has no class for
 static std::vector<IP> fragments(size_t payload_len, size_t chunk) {
     std::vector<uint8_t> payload(payload_len); for (size_t i = 0; i < payload_len; ++i) payload[i] = (uint8_t)(i * 7);
     std::vector<IP> out;
     for (size_t off = 0; off < payload_len; off += chunk) {
         size_t n = std::min(chunk, payload_len - off);
-        IP ip("10.0.0.2", "10.0.0.1"); ip.id(77); ip.protocol(17);
+        IP ip("10.0.0.2", "10.0.0.1"); ip.id(77);
         ip.fragment_offset(off / 8); ip.flags(off + n < payload_len ? IP::MORE_FRAGMENTS : (IP::Flags)0);
         ip /= RawPDU(&payload[off], (uint32_t)n);
+        ip.protocol((uint8_t)g_proto);   // after the payload is attached: operator/= would set it from the child
         out.push_back(ip);
     }
     return out;
@@ -27,7 +29,7 @@ static int run(const std::vector<int>& order, const char* what) {
         IPv4Reassembler::PacketStatus st = re.process(pkt);
         if (!seen[order[k]]) { seen[order[k]] = true; ++distinct; }
         bool should = distinct == fr.size() && reassembled == 0;
-        if (st == IPv4Reassembler::REASSEMBLED) { ++reassembled; if (!should) { printf("%s: DEFECT: REASSEMBLED from an incomplete set at step %zu\n", what, k); return 1; } if (pkt.rfind_pdu<RawPDU>().payload_size() != 64 && pkt.inner_pdu()->size() != 64) { printf("%s: DEFECT: wrong payload size\n", what); return 1; } }
+        if (st == IPv4Reassembler::REASSEMBLED) { ++reassembled; if (!should) { printf("%s: DEFECT: REASSEMBLED from an incomplete set at step %zu\n", what, k); return 1; } if (pkt.inner_pdu()->size() != 64) { printf("%s: DEFECT: wrong payload size\n", what); return 1; } }
         else if (should) { printf("%s: DEFECT: expected REASSEMBLED at step %zu, got %d\n", what, k, (int)st); return 1; }
     }
     printf("%s: ok\n", what);
@@ -36,6 +38,9 @@ static int run(const std::vector<int>& order, const char* what) {
 int main(int argc, char** argv) {
     Replay r(argv[1]);
     int bad = 0;
+    if (r.has("W_proto")) g_proto = (int)r.num("W_proto") & 0xff;
+    if (g_proto == 1 || g_proto == 4 || g_proto == 6 || g_proto == 41 || g_proto == 50 || g_proto == 51 || g_proto == 58) g_proto = 17;   // the counting pattern is not a valid header of those
+    printf("protocol %d\n", g_proto);
     int a[] = {0,1,2,3}; bad += run(std::vector<int>(a, a+4), "in order");
     int b[] = {3,2,1,0}; bad += run(std::vector<int>(b, b+4), "reversed");
     int c[] = {0,1,1,2,3}; bad += run(std::vector<int>(c, c+5), "duplicate of the highest fragment so far");
